@@ -73,7 +73,7 @@ pub fn gen(stream: &str, tier: &str, seed: u64) -> Vec<String> {
             }
             if stream == "tf" {
                 // with every prefix shape of "$share/"
-                let prefixes = ["$share/", "$share/g/", "$share//", "$share/你/", "$shar/", "$share", "$SYS/", "$share/g", "$share/+/", "$share/g/a/"];
+                let prefixes = ["$share/", "$share/g/", "$share//", "$share/你/", "$shar/", "$share", "$SYS/", "$share/g", "$share/+/", "$share/g/a/", "$shared/", "$shared/a/", "$sharex/a/b/", "$share你/好/", "$Share/g/", "$sharE/g/"];
                 let short = if thorough { 4 } else { 3 };
                 for pre in prefixes {
                     for st in strs.iter().filter(|s| s.chars().count() <= short) {
